@@ -497,7 +497,8 @@ impl GRLQueryParser {
         let mut in_string = false;
         let mut escape_next = false;
 
-        for (i, ch) in input.chars().enumerate() {
+        // byte offsets (char_indices): the caller slices `input` with the result
+        for (i, ch) in input.char_indices() {
             if escape_next {
                 escape_next = false;
                 continue;
@@ -661,7 +662,8 @@ fn find_matching_brace(input: &str) -> Option<usize> {
     let mut in_string = false;
     let mut escape_next = false;
 
-    for (i, ch) in input.chars().enumerate() {
+    // byte offsets (char_indices): the caller slices `input` with the result
+    for (i, ch) in input.char_indices() {
         if escape_next {
             escape_next = false;
             continue;
